@@ -17,7 +17,7 @@ R123     == {1, 2, 3}
 R0123    == {0, 1, 2, 3}
 NoFix    == {}
 AllFixes == {"attach", "stale", "mono"}
-Intended == {"attach", "stale", "mono", "persist"}
+Intended == {"attach", "stale", "mono", "persist", "onchain"}
 
 \* ---------------------------------------------------------------- scripted block trees
 \* A script is a sequence of <<bp, parent>> or <<bp, parent, conf>> in creation order (parent = index of an earlier
@@ -81,6 +81,13 @@ T4i == Tree(<< <<0,0>>, <<1,1>>, <<2,2>>, <<0,3>>, <<1,4>>,
                <<3,3>>, <<3,6>>, <<3,7>>,
                <<2,5>>, <<0,9>>, <<1,10>>, <<2,11>> >>)
 T4iExec == {MarkBad(T4i, 6, "exec"), MarkBad(T4i, 7, "exec"), MarkBad(T4i, 8, "exec")}
+
+\* T4j: found by simulation.  The observer is on b1,b2,b3 (producer 1 alone, blocks 5,6,7); the branch a1(3) a2(2) a3(0) a4(3)
+\* (blocks 1..4) is longer, but a4 does not execute.  The valid prefix a1..a3 gives a1 three confirmations: producer 0's
+\* proposal becomes a1, and it survives the return to b3 (its number is not above the rollback target): STALE2.
+T4j == Tree(<< <<3,0>>, <<2,1>>, <<0,2>>, <<3,3>>, <<1,0>>, <<1,5>>, <<1,6>> >>)
+T4jExec == {MarkBad(T4j, 4, "exec")}
+T4ijExec == T4iExec \cup T4jExec
 ST3  == {T3}
 ST4  == {T4}
 ST4s == {T4s}
